@@ -15,21 +15,32 @@ FAM = {
     sigs={"C02": ["out_of_extent"], "C03": ["npu_output_not_fully_written", "uninit_read"], "C04": ["final_memory_divergence", "reads_from_divergence"]}),
  "F03-reshape-folded-into-producer": dict(
     what="an operator followed by RESHAPE whose shapes are recomputed after the reshape was bypassed (LUT activations, 2x-upscaling resize steps): the OFM takes the reshaped shape while the IFM registers still describe the original tensor, so elements beyond IFM_WIDTH0/HEIGHT0 are fetched through the unused tile bases",
-    ctx=dict(requires_layers=["RESHAPE"], max_layers=4),
+    ctx=dict(requires_layers=["RESHAPE"], max_layers=8),
     sigs={"C02": ["out_of_extent"], "C03": ["uninit_read", "foreign_read"], "C04": ["reads_from_divergence", "async_uninit_read", "final_memory_divergence"]}),
  "F04-resize-bilinear-hpc-blockdep": dict(
     what="RESIZE_BILINEAR with half_pixel_centers: the 2x2 depthwise steps read one row/column more than npu_op.ifm.shape (edge replication through the tile bases); calc_blockdep clips its first-job IFM volume to ifm.shape, misses the overlap with the producer's last OFM block and programs BLOCKDEP too large",
-    ctx=dict(requires_layers=["RESIZE_BILINEAR"], max_layers=3, kind_any=["DEPTHWISE"]),
+    ctx=dict(requires_layers=["RESIZE_BILINEAR"], max_layers=8, kind_any=["DEPTHWISE"]),
     sigs={"C04": ["async_uninit_read", "reads_from_divergence"]}),
  "F06-slice-offset-scaled-by-stride": dict(
     what="a strided (stride>1) or padded pool/conv that reads through a fused slice offset: Box.transform_with_strides_and_skirt adds the read offset before multiplying by the stride (high_level_command_stream.py:66-101); the IFM box handed to the register generator is wrong (even zero-sized), addresses and BLOCKDEP derived from it are wrong",
-    ctx=dict(requires_any=SLICES, max_layers=6, kind_any=["POOL/MAX", "POOL/AVERAGE", "CONV", "DEPTHWISE"]),
+    ctx=dict(requires_any=SLICES, max_layers=8, kind_any=["POOL/MAX", "POOL/AVERAGE", "CONV", "DEPTHWISE"]),
+    sigs={"C02": ["out_of_extent"], "C03": ["uninit_read", "foreign_read"], "C04": ["reads_from_divergence", "async_uninit_read"]}),
+ "F09-odd-stripe-nearest-upscale": dict(
+    what="a 2x nearest-neighbour upscaling step (RESIZE_NEAREST_NEIGHBOR lowered to pool operations) striped in a cascade with an odd OFM stripe height: IFM_HEIGHT0 is floor(h/2) although ceil(h/2)+ rows are fetched, so the last row comes through an unused tile base (address 0)",
+    ctx=dict(requires_layers=["RESIZE_NEAREST_NEIGHBOR"], max_layers=8, kind_any=["POOL/AVERAGE"]),
     sigs={"C02": ["out_of_extent"], "C03": ["uninit_read", "foreign_read"], "C04": ["reads_from_divergence", "async_uninit_read"]}),
 }
 FIXED = [
  "fixed: property=C13 54fac24 every network with weights aborted with OverflowError (int32 memory histogram minus 1<<32 under NumPy 2), live_range.py:149 / scheduler.py:667",
  "fixed: property=C13 325e4e3 every network with HARD_SWISH aborted with OverflowError (np.int16 + 1<<15 under NumPy 2), tflite_graph_optimiser.py:1549",
  "fixed: property=C13 8eda2bb every MEAN lowered to convolutions aborted with OverflowError (np.int32 num_elements_in_axis), tflite_graph_optimiser.py:2309/2449",
+ "fixed: property=C13 a7da073 --subgraph-output aborted with AttributeError on an operator without bias (None optional input), nn_graph.py:print_npu_graph",
+ "fixed: property=C13 e607f85 --show-cpu-operations aborted with AttributeError on an operator without bias, stats_writer.py:format_tens_list",
+ "fixed: property=C13 efd32d6 ARG_MAX placed on the NPU aborted with OverflowError under NumPy 2, tflite_graph_optimiser.py:convert_argmax_to_depthwise_conv_and_max_pool",
+ "fixed: property=C13 0b88190 RESIZE with align_corners and a unit IFM height/width aborted with ValueError/OverflowError (division by zero), tflite_supported_operators.py:constraint_resize",
+ "fixed: property=C13 c961fbe TRANSPOSE of a tensor without quantisation parameters aborted with AttributeError, register_command_stream_generator.py:generate_ofm_scaling_for_pooling (findings/FX-transpose-noquant.C13.json)",
+ "fixed: property=C02 132d556 single (non double-buffered) weight buffer sized for the even depth slices only: the DMA of a larger odd slice overran the published fast-scratch extent; CONV_2D 7x7 dil 2, 256->32 ch, ethos-u65-512 Dedicated_Sram --arena-cache-size 109605 (findings/FX-single-weight-buffer.C02.json)",
+ "fixed: property=C03 b9658ce reused 1 KiB lookup table got LUT index offset//1024 instead of offset//256: LOGISTIC ; SOFTMAX ; SOFTMAX on ethos-u55-128 read an SHRAM slot that was never loaded (findings/FX-lut-index-reuse.C03.json)",
  "fixed: property=C12 3e245fc elementwise operator executed in place over an NPU-subgraph input (produced by a CPU operator) that a later subgraph still reads: CONV_2D(stride 4, CPU) -> MINIMUM(NPU) -> CUSTOM(CPU) ; RELU of the conv output in a second NPU subgraph (findings/F05-inplace-elementwise-shared-input.C12.json)",
 ]
 EXTRA = [
@@ -50,6 +61,19 @@ EXTRA = [
       requires_any=["RESIZE_NEAREST_NEIGHBOR"],
       what="RESIZE_NEAREST_NEIGHBOR with align_corners and more than one channel: convert_resizenn_ac_to_depthwise_conv reshapes upscale*upscale weight values into a [u,u,C,C] tensor (tflite_graph_optimiser.py:384-404) and numpy raises ValueError",
       example="findings/F08-resize-nn-align-corners.C13.json"),
+ dict(id="F03-reshape-folded-into-producer", property="C13", status="known",
+      signature={"oracle": "internal_exception", "exc_type": "AssertionError", "site": "register_command_stream_generator.py:generate_ifm2_broadcast"},
+      requires_layers=["RESHAPE"],
+      what="same root cause as F03: the binary elementwise operator's IFM2 no longer broadcasts against the reshaped OFM and generate_ifm2_broadcast asserts",
+      example="findings/F03-reshape-folded-into-producer.C13.json"),
+ dict(id="F10-fast-scratch-rounded-past-cache", property="C02", status="known",
+      signature={"oracle": "fast_scratch_exceeds_arena_cache", "rounding_only": True},
+      what="--arena-cache-size that is not a multiple of 16 in a Dedicated_Sram mode: the allocator keeps the fast scratch within the limit but the published tensor size is rounded up to the next multiple of 16, i.e. up to 15 bytes past the configured cache size",
+      example="findings/F10-fast-scratch-rounded-past-cache.C02.json"),
+ dict(id="F11-mean-over-width-only", property="C04", status="known",
+      signature={"oracle": "inflight_conflict"}, requires_layers=["MEAN"], max_layers=8,
+      what="MEAN over the W axis only of a tensor with H>1: the depthwise operator it is lowered to is given an OFM of 1 x H while its IFM tiles describe 1 x W; the columns beyond IFM_WIDTH0 are fetched through the unused tile base (address 0) and collide with an in-flight weight DMA",
+      example="findings/F11-mean-over-width-only.C04.json"),
 ]
 def main():
     import os
